@@ -50,9 +50,11 @@ RULE = ('type-directed: a JSON-representable target (nested dicts/lists/strings/
         'expressible) and spec and target are delivered by argument / file / standard input in all combinations '
         'with --indent in {absent,0,1,2,4} and --scalar; a one-edit mutation stream truncates the target text, '
         'names a missing file, gives both an argument and a file, an unknown format, a missing path segment, an '
-        'empty text, a malformed literal, --spec-format json / python-full (benign specs only); plus a corpus of '
+        'empty text, a target that is a complete document followed by garbage / a second document / a stray bracket '
+        'or preceded by a BOM, a malformed literal, --spec-format json / python-full (benign specs only); plus a corpus of '
         'hostile spec texts (calls, attribute access, lambdas, comprehensions, f-strings, dunder tricks), each '
-        'planting a marker file, delivered by argument and by file. non-trivial = the property speaks about the '
+        'planting a marker file, delivered by argument and by files named *.glom / *.py / *.PY / *.json / *.yml (spec-file names with such '
+        'extensions are also used for benign specs). non-trivial = the property speaks about the '
         'case (result / GlomError / target usage error / malformed spec); distinct = distinct (argv, files, stdin)')
 TRUSTED = ['externals (parsers, literal_eval, repr, dumps, glom.glom, is_scalar, face) enter the model as tables '
            'computed by the harness with the real functions']
@@ -372,14 +374,19 @@ SPEC_VIAS = ['argv', 'argv', 'file']
 TARGET_VIAS = ['argv', 'argv', 'file', 'dash', 'dashfile', 'piped']
 
 
-def assemble(spec_txt, target_txt, sv, tv, fmt, indent, scalar, junk='{"junk": 1}', tty=True):
+SPEC_NAMES = ['spec.glom', 'spec.glom', 'spec.txt', 'spec.py', 'spec.PY', 'spec.json', 'spec.JSON', 'spec.yml',
+              'spec.Py', 'spec', 'spec.py.txt']
+
+
+def assemble(spec_txt, target_txt, sv, tv, fmt, indent, scalar, junk='{"junk": 1}', tty=True,
+             spec_name='spec.glom'):
     files = []
     av = {'posargs': [], 'target_file': None, 'target_format': fmt, 'spec_file': None, 'spec_format': None,
           'indent': indent, 'scalar': scalar}
     sp = spec_txt if sv == 'argv' else ''
     if sv == 'file':
-        av['spec_file'] = T + '/spec.glom'
-        files.append([T + '/spec.glom', spec_txt])
+        av['spec_file'] = T + '/' + spec_name
+        files.append([T + '/' + spec_name, spec_txt])
     if tv == 'argv':
         av['posargs'] = [sp, target_txt]
     elif tv == 'dash':
@@ -412,22 +419,48 @@ def gen_case(rng):
     if sv == 'argv' and (not st or st[0] == '-'):
         sv = 'file'
     return assemble(st, tt, sv, tv, fmt, rng.choice([None, None, 0, 1, 2, 4]), rng.random() < 0.25,
-                    junk=rng.choice(['', '{"junk": 1}', 'not json']), tty=rng.random() < 0.6)
+                    junk=rng.choice(['', '{"junk": 1}', 'not json']), tty=rng.random() < 0.6,
+                    spec_name=rng.choice(SPEC_NAMES))
+
+
+def malform(rng, text):
+    """a malformed variant of a target text: cut in the middle, or — the shapes a lenient
+    parser lets through — a complete document followed / preceded by something else"""
+    k = rng.randrange(9)
+    if k < 2 or not text.strip():
+        return text[:max(1, len(text) // 2)]
+    t = text.rstrip()
+    return [t + ' xyz', t + '\n' + t + '\n', t + t, t + ']', t + '}', t + ',', '\ufeff' + t][k - 2]
+
+
+MALFORMED_JSON = ['{"a": {"b": 1}} trailing garbage', '{"a": {"b": 1}}\n{"a": {"b": 2}}\n',
+                  '{"a": {"b": 1}}{"a": {"b": 1}}', '{"a": {"b": 1}}]', '{"a": {"b": 1}},', '[1, 2]]',
+                  '\ufeff{"a": {"b": 1}}', '{"a": {"b": 1}} {', '1 2', '"a" "b"', 'null,']
+
+
+def malformed_target_cases():
+    """whole-text-malformed JSON whose prefix is a complete document, in every delivery"""
+    for i, text in enumerate(MALFORMED_JSON):
+        for tv in ('argv', 'file', 'dash', 'dashfile', 'piped'):
+            yield assemble(['a.b', "{'out': 'a.b'}", 'a'][i % 3], text, ['argv', 'file'][i % 2], tv,
+                           [None, 'json'][i % 2], None, False)
 
 
 def mutate(rng, case):
     c = json.loads(json.dumps({k: v for k, v in case.items() if k not in ('impl', 'ext')}))
     av = c['argv']
-    k = rng.randrange(12)
-    if k == 0:      # malformed target: truncate whichever text is the target
+    k = rng.randrange(13)
+    if k in (0, 11):      # malformed target: whichever text is the target
         if av['target_file'] and av['target_file'] != '-' and c['files']:
             for f in c['files']:
                 if f[0] == av['target_file'] and f[1]:
-                    f[1] = f[1][:max(1, len(f[1]) // 2)]
+                    f[1] = malform(rng, f[1])
         elif len(av['posargs']) == 2 and av['posargs'][1] != '-':
-            av['posargs'][1] = av['posargs'][1][:max(1, len(av['posargs'][1]) // 2)]
+            av['posargs'][1] = malform(rng, av['posargs'][1])
+            if av['posargs'][1][:1] == '-':
+                av['posargs'][1] = ' ' + av['posargs'][1]
         else:
-            c['stdin'] = c['stdin'][:max(1, len(c['stdin']) // 2)]
+            c['stdin'] = malform(rng, c['stdin'])
     elif k == 1:    # missing target file
         if len(av['posargs']) == 2:
             av['posargs'] = av['posargs'][:1]
@@ -520,6 +553,20 @@ def hostile_cases():
                 c = assemble(h, tgt, sv, ['argv', 'file', 'piped'][i % 3], None, None, False)
                 c['hostile'] = True
                 yield c
+        # the same text in spec files whose NAME suggests another language: the default format
+        # is 'python' whatever the file is called
+        for j, name in enumerate(('spec.py', 'spec.PY', 'spec.json', 'spec.yml')):
+            c = assemble(h, '{"a": {"b": 1}}', 'file', ['argv', 'file', 'piped'][(i + j) % 3], None, None, False,
+                         spec_name=name)
+            c['hostile'] = True
+            yield c
+
+
+def named_spec_file_cases():
+    """benign literal specs in files with every extension: parsed as literals all the same"""
+    for name in sorted(set(SPEC_NAMES)):
+        for st in ("{'out': 'a.b'}", 'a.b', "('a', 'b')", '{"out": "a.b"}'):
+            yield assemble(st, '{"a": {"b": 1}}', 'file', 'argv', None, None, False, spec_name=name)
 
 
 HOSTILE_TARGETS = [
@@ -569,7 +616,8 @@ def exhaustive(tier):
 
 
 def corpus():
-    out = list(hostile_cases()) + list(hostile_target_cases())
+    out = (list(hostile_cases()) + list(hostile_target_cases()) + list(malformed_target_cases())
+           + list(named_spec_file_cases()))
     # the inputs that justify the hypotheses of c19_output (Props/C19.lean), on the real CLI
     out.append(assemble("'a'", '-', 'argv', 'argv', None, None, False))            # positional "-" is stdin
     out[-1]['stdin'] = '{"a": 1}'
